@@ -55,7 +55,7 @@ def rule_a(ctx, R):
                    detail="Ok payload root is %r, not a from_f64 conversion of the f64 result" % (pr,))
             continue
         r = v.root(t["args"][1])
-        IN, guards = classes_at(body, r, v)
+        IN, guards, _out = classes_at(body, r, v)
         cls = IN.get(bi, frozenset())
         ok = cls <= frozenset([POS]) and bool(cls)
         ctx.ob("C12-a", "Ok site bb%d: returned value %r restricted to class {pos} by %d guard(s); classes reaching Ok = %s"
@@ -126,6 +126,37 @@ def rule_bc(ctx, R):
     ctx.ob("C12-c", "Err of inverse_gamma_lr never reaches Ok(sample)", ok, fn, "quantile-err-discipline", where=pat.where(t), detail=why)
 
 
+def rule_d(ctx, R):
+    """Never panics: statrs' incomplete-gamma functions panic for x <= 0; every call must be reached only with x > 0 (or NaN)."""
+    from ..f64facts import NEG, ZERO, NINF
+    ctx.rule("C12-d", "in the f64 quantile routine every call of statrs' gamma_lr / gamma_ur (which panic for x <= 0) is reached only with a second "
+                      "argument that guards / clamps have made > 0")
+    try:
+        q = R.quantile()
+    except RoleLost as e:
+        return ctx.lost("C12-d", str(e))
+    impls = [cb for bi, t, cb in R.local_callees(q) if not t["callee"].get("trait")]
+    if len(impls) != 1:
+        return ctx.lost("C12-d", "the f64 quantile routine (callee of inverse_gamma_lr)", q.path)
+    body = impls[0]
+    ctx.fn(body.path)
+    v = Vals(body)
+    sites = [(bi, t) for bi, t in body.calls() if (t.get("callee") or {}).get("crate") == "statrs" and t["callee"].get("name") in
+             ("gamma_lr", "gamma_ur", "checked_gamma_lr", "checked_gamma_ur", "gamma_li", "gamma_ui")]
+    for bi, t in sites:
+        xr = v.root(t["args"][1])
+        IN, guards, OUT = classes_at(body, xr, v)
+        cls = OUT.get(bi, frozenset()) if xr.kind == "local" else IN.get(bi, frozenset())
+        # the argument temp is copied from the variable inside the call's own block; OUT of the block is the value at the call
+        bad = cls & frozenset([NEG, ZERO, NINF])
+        ctx.ob("C12-d", "%s(a, x) at %s: x cannot be <= 0 (classes %s)" % (t["callee"]["name"], pat.where(t), sorted(cls)), not bad and bool(cls), body.path,
+               "statrs-domain:" + t["callee"]["name"], where=pat.where(t),
+               detail="x may be %s when %s is called: statrs panics for x <= 0, so the quantile (and the sample) would panic instead of returning Ok/Err"
+                      % (sorted(bad), t["callee"]["name"]))
+    ctx.ob("C12-d", "incomplete-gamma call sites found: %d (>= 2)" % len(sites), len(sites) >= 2, body.path, "statrs-site-floor")
+
+
 def run(ctx):
     rule_a(ctx, ctx.roles)
     rule_bc(ctx, ctx.roles)
+    rule_d(ctx, ctx.roles)
